@@ -129,6 +129,9 @@ def assert_histogram(ctx: Ctx, h, case, ps_expected=None):
     if ps_expected is not None:
         require(ps == [tuple(map(float, p)) for p in ps_expected], "bins_differ_from_spec",
                 f"spec {ps_expected} reported {ps}")
+    if not case.get("adaptive_requested"):
+        # adaptivity is opt-in: without adaptive=True the bins stay what they are
+        require(not h.is_adaptive(), "adaptive_by_default", "the histogram is adaptive although adaptive=True was not passed")
     m = model.hist1d(ps, data, weights)
     n = sum(1 for v in data if not math.isnan(v))
     dt = expected_dtype(case)
